@@ -78,6 +78,17 @@ def run(chk, facts):
                             vals.add(a["v"])
                         elif a.get("k") == "path" and _is_const_name(a["p"]):
                             vals |= resolve_const(a["p"], fn["mod"])
+            elif n.get("k") == "mcall" and n["m"] == "contains" and strip(n["recv"]).get("k") == "path" and _is_const_name(strip(n["recv"])["p"]):
+                # `FROM_TYPING.contains(&name)`: a name is compared with every element of a constant table
+                cname = strip(n["recv"])["p"].split("::")[-1]
+                for key_, c_ in syn.consts.items():
+                    if key_.split("::")[-1] == cname and c_["e"].get("k") == "array" and (key_.startswith(fn["mod"].split("::")[0]) or "::" not in key_):
+                        for el in c_["e"]["elems"]:
+                            el = strip(el)
+                            if el.get("k") == "lit" and el.get("t") == "str":
+                                vals.add(el["v"])
+                            elif el.get("k") == "path" and _is_const_name(el["p"]):
+                                vals |= resolve_const(el["p"], c_.get("mod", fn["mod"]))
             elif n.get("k") == "mcall" and n["m"] in ("starts_with", "ends_with", "contains") and n["args"]:
                 a = strip(n["args"][0])
                 if a.get("k") == "lit" and a.get("t") in ("str", "char"):
@@ -197,6 +208,54 @@ def run(chk, facts):
                            f"{fn['qual']} tests `{src(n)[:80]}` on rendered text: a name that is a substring of another expression is treated as if it occurred in it", facts.loc_of(fn))
     chk.ob("R-C15-5", "scan", True, f"{n_conv} functions of generate::convert scanned for textual matching")
     chk.floor("R-C15-5", n_conv, 15, "functions of generate::convert")
+    # ---------------- R-C15-6 ----------------
+    # names are compared as wholes: every *textual* operation (prefix / suffix / trimming / splitting / replacing / case folding) in the
+    # checker and the generator is reviewed - none of them may be applied to a user-chosen name. (`retain(|name, _| !name.starts_with(var))`
+    # removes `log_level` together with `log`.)
+    chk.rule("R-C15-6", "textual operations in check:: and generate:: are the reviewed ones; none works on user-chosen names")
+    TEXT_OPS = {"starts_with", "ends_with", "matches", "rfind", "split", "rsplit", "split_once", "trim", "trim_start_matches", "trim_end_matches", "trim_matches",
+                "strip_prefix", "strip_suffix", "replace", "replacen", "to_lowercase", "to_uppercase", "eq_ignore_ascii_case", "to_ascii_lowercase",
+                "to_ascii_uppercase", "char_indices", "chars", "bytes", "as_bytes", "find", "contains"}
+    REVIEWED_TEXT = {
+        ("check::constrain::generate::collection::gen_builder", "strip_prefix"): (1, "slice operation on a list of AST nodes, not text"),
+        ("generate::convert::builder::convert_builder", "strip_prefix"): (3, "slice operation on a list of AST nodes, not text"),
+        ("check::constrain::generate::operation::gen_op", "starts_with"): (1, "sign of the exponent of a number lexeme"),
+        ("check::context::arg::generic::GenericFunctionArg::try_from", "starts_with"): (1, "sign of the exponent of a number lexeme"),
+        ("check::constrain::unify::finished::Finished::push_ty", "trim"): (1, "Name::trim - removes a *type* from a union, not characters"),
+        ("check::name::string_name::StringName::trim", "trim"): (1, "Name::trim - removes a type from a union"),
+        ("check::name::true_name::TrueName::trim", "trim"): (1, "Name::trim - removes a type from a union"),
+        ("check::name::Name::trim", "trim"): (1, "Name::trim - removes a type from a union"),
+        ("check::context::python::python_files", "replace"): (1, "CRLF -> LF in the text of a bundled stub file"),
+        ("check::name::string_name::StringName::is_temp", "starts_with"): (1, "the `@` marker of generated temporary names: not lexable, so never in a user name (R-C15-2)"),
+        ("check::name::string_name::StringName::temp_map", "starts_with"): (1, "the `@` marker of generated temporary names (R-C15-2)"),
+        ("check::constrain::generate::operation::gen_op", "contains"): (1, "decimal point in the mantissa of a number lexeme"),
+        ("check::context::arg::generic::GenericFunctionArg::try_from", "contains"): (1, "decimal point in the mantissa of a number lexeme"),
+        ("generate::convert::convert_node", "contains"): (1, "decimal point in the mantissa of a number lexeme (ENum)"),
+        ("generate::convert::single_line", "replace"): (2, "line breaks inside the text of a string literal"),
+        ("generate::convert::without_leading_zeros", "strip_prefix"): (1, "sign of a digit string"),
+        ("generate::convert::without_leading_zeros", "trim_start_matches"): (1, "leading zeros of a digit string"),
+    }
+    got_t = {}
+    for fn in syn.fns:
+        if not fn.get("body") or fn.get("derived") or "test" in fn["mod"] or not (fn["mod"].startswith("check") or fn["mod"].startswith("generate")):
+            continue
+        for n in walk(fn["body"]):
+            if n.get("k") != "mcall" or n["m"] not in TEXT_OPS:
+                continue
+            if n["m"] in ("find", "contains"):
+                # only the textual forms: a string / char pattern argument (iterator `find(|x| ..)` and `Vec::contains(&x)` are structural)
+                a = strip(n["args"][0]) if n["args"] else {}
+                if not (a.get("k") == "lit" and a.get("t") in ("str", "char")):
+                    continue
+            got_t[(fn["qual"], n["m"])] = got_t.get((fn["qual"], n["m"]), 0) + 1
+    for k_, cnt in sorted(got_t.items()):
+        rev = REVIEWED_TEXT.get(k_)
+        ok = rev is not None and cnt <= rev[0]
+        f_ = next((x for x in syn.fns if x["qual"] == k_[0]), None)
+        chk.ob("R-C15-6", f"text-op:{k_[0]}|{k_[1]}", ok, f"{k_[0]}: .{k_[1]}(..) x{cnt} - reviewed: {rev[1]}" if ok else
+               f"{k_[0]} applies `.{k_[1]}(..)` to text ({cnt} site(s), {rev[0] if rev else 0} reviewed): if that text is a user-chosen name, a name that merely begins / ends with "
+               "or contains another one is treated as if it were that name", facts.loc_of(f_) if f_ else None)
+    chk.floor("R-C15-6", len(got_t), 10, "textual operations in check:: / generate::")
     chk.notes.append("C15: census of special strings against the documented table; lexer charset; call-resolution order.")
 
 
